@@ -418,7 +418,23 @@ int scan_from_with(var input, int pos, const char* fmt, var args) {
       
       else if (strchr("diouxX", *fmt)) {
         long tmp = 0;
-        int err = format_from(input, pos, fmt_buf, &tmp, &off);
+        int err = 0;
+        bool sgn = strchr("di", *fmt) isnt NULL;
+        if (strpbrk(fmt_buf, "ljztq")) {
+          err = format_from(input, pos, fmt_buf, &tmp, &off);
+        } else if (strstr(fmt_buf, "hh")) {
+          signed char t = 0;
+          err = format_from(input, pos, fmt_buf, &t, &off);
+          tmp = sgn ? (long)t : (long)(unsigned char)t;
+        } else if (strchr(fmt_buf, 'h')) {
+          short t = 0;
+          err = format_from(input, pos, fmt_buf, &t, &off);
+          tmp = sgn ? (long)t : (long)(unsigned short)t;
+        } else {
+          int t = 0;
+          err = format_from(input, pos, fmt_buf, &t, &off);
+          tmp = sgn ? (long)t : (long)(unsigned int)t;
+        }
         if (err < 1) { throw(FormatError, "Unable to input Int!"); }
         pos += off;
         assign(a, $I(tmp));
